@@ -60,7 +60,7 @@ class Check(CheckBase):
         return engine.Config(logic="QF_NRA", fresh_feas=True, max_decisions=400, ob_rlimit=400_000_000)
 
     def cases(self, tier):
-        return [{"label": "clip_segment", "split_depth": 6}]
+        return [{"label": "clip_segment", "split_depth": 6}, {"label": "clip_segment/after-earlier-call", "history": True, "split_depth": 6}]
 
     def expected_reach(self, tier):
         return ["accept:0clips", "accept:1clips", "accept:2clips", "accept:3clips", "accept:4clips", "reject"]
@@ -80,8 +80,17 @@ class Check(CheckBase):
             calls.append(1)
             return orig_cc(*a)
         pu.clip_code = counting_cc
+        bounds_arg = [[v["xmin"], v["ymin"]], [v["xmax"], v["ymax"]]]
+        if case.get("history"):
+            # earlier calls with the same list objects (concrete values); the caller then edits them in place
+            bounds_arg = [[0, 0], [10, 10]]
+            seg_prior = [[-2, -4], [8, 16]]
+            pu.clip_segment(seg_prior, bounds_arg)
+            pu.clip_segment([[1, 1], [2, 2]], bounds_arg)
+            del calls[:]
+            bounds_arg[0][0], bounds_arg[0][1], bounds_arg[1][0], bounds_arg[1][1] = v["xmin"], v["ymin"], v["xmax"], v["ymax"]
         try:
-            accept, seg = pu.clip_segment(seg_in, [[v["xmin"], v["ymin"]], [v["xmax"], v["ymax"]]])
+            accept, seg = pu.clip_segment(seg_in, bounds_arg)
         except ZeroDivisionError:
             run.reach("zerodiv")
             run.prove("no-division-by-zero", z3.BoolVal(False))
@@ -115,7 +124,14 @@ class Check(CheckBase):
         g = [Fraction(cex["inputs"][n]) for n in NAMES]
         x1, y1, x2, y2, xmin, ymin, xmax, ymax = g
         try:
-            accept, seg = pu.clip_segment([[x1, y1], [x2, y2]], [[xmin, ymin], [xmax, ymax]])
+            if "after-earlier-call" in (cex.get("case") or ""):
+                b = [[0, 0], [10, 10]]
+                pu.clip_segment([[-2, -4], [8, 16]], b)
+                pu.clip_segment([[1, 1], [2, 2]], b)
+                b[0][0], b[0][1], b[1][0], b[1][1] = xmin, ymin, xmax, ymax
+                accept, seg = pu.clip_segment([[x1, y1], [x2, y2]], b)
+            else:
+                accept, seg = pu.clip_segment([[x1, y1], [x2, y2]], [[xmin, ymin], [xmax, ymax]])
         except ZeroDivisionError as e:
             return {"raised": "ZeroDivisionError", "args": [str(x) for x in g]}
         iv = liang_barsky(*g)
